@@ -138,8 +138,9 @@ def permute_layers(ls, perm_seed):
 
 
 def norm(o):
-    """(kind, message) - error messages reduced to the exception class."""
-    return (o[0], o[1].split(":")[0] if o[0] == "error" else o[1])
+    """(kind, message): the outcome of assert_applies, whatever it is - also the text of a lookup error (which of several
+    absent modules / unmatched expressions it names must not depend on listing order or hash seed either)."""
+    return (o[0], o[1])
 
 
 class Harness:
@@ -453,6 +454,16 @@ def batch_cases(draw):
              "subj": {"kind": ks, "names": S, "as_str": False}, "obj": None if anything else {"kind": ko, "names": O, "as_str": False}}
         if draw(st.integers(0, 4)) == 0:
             r["subj"] = {"kind": "regex", "names": [draw(st.sampled_from([r"q\.a", r".*\.x$", r"q\.[abc]$", r"q\.a.*|q\.b$"]))]}
+        if draw(st.integers(0, 5)) == 0:
+            # two or three names that do not exist / expressions that match nothing, listed together with existing ones: the
+            # outcome is a lookup error whose text must not depend on listing order or hash seed
+            side = draw(st.sampled_from(["subj", "obj"])) if not anything else "subj"
+            if draw(st.booleans()):
+                absent = draw(st.permutations(["q.zz1", "q.zz2", "q.a.zz", "q.nope"]))[: draw(st.integers(2, 3))]
+                r[side] = {"kind": draw(st.sampled_from(RS.KINDS)), "names": list(draw(st.permutations(list(absent) + (S if side == "subj" else O)[:1]))), "as_str": False}
+            else:
+                dead = draw(st.permutations([r"q\.zz1$", r"q\.zz2$", r"nope\..*", r"q\.a\.zz$"]))[: draw(st.integers(2, 3))]
+                r[side] = {"kind": "regex-batch", "names": list(draw(st.permutations(list(dead) + [r"q$"])))}
         imports = draw(RS.import_relation(tree, focus=set(S) | set(O), max_edges=12))
         nested = [(x, y) for x in tree for y in tree if M.is_strict_desc(y, x) and x != "q" and any(M.is_strict_desc(z, y) for z in tree)]
         if nested and not anything and draw(st.integers(0, 2)) == 0:
